@@ -27,6 +27,7 @@ func famSesReent(t *testing.T, r *Rec) {
 	reentSlowCallback(r, cfg)
 	reentStalledPeer(r, cfg)
 	reentPollAfterAbortedPoll(r)
+	refusedUpgrades(r)
 	events := []string{"packetCreate", "flush", "drain", "packet", "message", "close", "cb", "upgrade"}
 	if r.thorough() {
 		events = append(events, "heartbeat", "upgrading")
@@ -383,6 +384,51 @@ func reentStalledPeer(r *Rec, cfg string) {
 		}
 		if state != "closed" || closes != 1 || reg != "-:0" {
 			r.Violate("C12", "C12/not-closed-at-once/stalled-peer/"+name, fmt.Sprintf("a batch is stuck in the connection of a peer that stopped reading; after %s the session is %s with %d close events, the table is %s", name, state, closes, reg), lines)
+		}
+	}
+}
+
+
+// refusedUpgrades (monitor only, C05): an upgrade request that passes every admission check and is then refused by the
+// WebSocket handshake itself (a version other than 13, no key, a writer that cannot be hijacked) is answered with the
+// documented error and nothing else: 400, JSON {"code":3,"message":"Bad request"}, one connection_error, no session.
+func refusedUpgrades(r *Rec) {
+	for _, how := range []string{"12", "8", "nokey", "13"} { // ("13": well-formed, but the test's response writer cannot be hijacked)
+		for _, withSid := range []bool{false, true} {
+			lines := []string{"ses cfg 25000 20000 1000 100000 default 1 0 - 0 -", "ses hs polling 4 0 -"}
+			target := "-"
+			if withSid {
+				target = "s0"
+			}
+			lines = append(lines, fmt.Sprintf("ses badupgrade %s %s", target, how), "ses obs")
+			outs, fault := runIsolated(lines, 10*time.Second)
+			r.scenarios++
+			name := fmt.Sprintf("%s/sid=%v", how, withSid)
+			r.Cover("reent/refused-upgrade/" + name)
+			if fault != "" && !strings.Contains(fault, "main_bubble_goroutine_has_exited") {
+				r.Violate("C05", "C05/refused-upgrade/"+strings.SplitN(fault, ":", 2)[0]+"/"+name, "an upgrade request refused by the WebSocket handshake made the server "+fault, lines)
+				continue
+			}
+			var got []string
+			cerr := 0
+			for _, out := range outs[2:] {
+				if out == "-" || out == "ok" {
+					continue
+				}
+				o := parseObs(out)
+				for _, rs := range o.resps {
+					got = append(got, fmt.Sprintf("%d %s %s", rs.status, rs.ct, unhx(rs.body)))
+				}
+				for _, e := range o.events {
+					if e.who == "srv" && e.name == "connection_error" {
+						cerr++
+					}
+				}
+			}
+			want := `400 json {"code":3,"message":"Bad request"}`
+			if len(got) != 1 || got[0] != want || cerr != 1 {
+				r.Violate("C05", "C05/refused-upgrade/answer/"+name, fmt.Sprintf("answers %q with %d connection_error events, want exactly [%s] and one event", got, cerr, want), lines)
+			}
 		}
 	}
 }
